@@ -104,10 +104,18 @@ def captured_output() -> Generator[Tuple[TextIO, TextIO], None, None]:
         sys.stdout, sys.stderr = old_out, old_err
 
 
+_EXTENDED_CLASSES: dict = {}
+
+
 def extend_class(base_cls: Any, cls: Any) -> Type:
-    """Apply mixins"""
-    base_cls_name = base_cls.__name__
-    return type(base_cls_name, (cls, base_cls), {})
+    """Apply mixins.  The same pair of classes always gives the same class
+    object, so that rebuilding the schemes (e.g. when further scheme files
+    are registered) does not change the identity of their column classes."""
+    key = (base_cls, cls)
+    if key not in _EXTENDED_CLASSES:
+        base_cls_name = base_cls.__name__
+        _EXTENDED_CLASSES[key] = type(base_cls_name, (cls, base_cls), {})
+    return _EXTENDED_CLASSES[key]
 
 
 def extend_instance(obj: object, cls: type) -> None:
